@@ -17,6 +17,7 @@ import abc
 import dataclasses
 import functools
 import inspect
+import operator
 import typing
 import icontract
 LOG = []
@@ -340,6 +341,8 @@ def render_class(style, inv, child, dbc, contracts):
     members = ("    def _get_q(self):\n        \"\"\"getter doc\"\"\"\n        return 8\n    def _set_w(self, value):\n        pass\n"
                "    q = property(_get_q, None, None, 'the user doc of q')\n    w2 = property(fset=_set_w, doc='write-only doc')\n"
                "    sp = myprop(_get_q, doc='doc of the property sub-class')\n"
+               # accessors which are callables of other kinds than functions (no __name__, no signature)
+               "    ag = property(operator.attrgetter('v'))\n    pz = property(functools.partial(_get_q))\n"
                + ("    q2 = property(icontract.ensure(lambda result: True)(_get_q), doc='explicit q2 doc')\n" if contracts and dbc else
                   "    q2 = property(_get_q, doc='explicit q2 doc')\n") +
                "    def swap(this, self):\n        return ('swap', self)\n"
@@ -495,6 +498,7 @@ def class_script(ns, style, child):
         rec("unbound", lambda: Root.pub(r, 3))
         rec("unbound_kw", lambda: Root.pub(self=r, x=3))
         rec("p", lambda: r.p)
+        rec("ag", lambda: (r.ag, r.pz))
         rec("sm", lambda: r.sm(1))
         rec("cm", lambda: Root.cm(1))
         rec("v", lambda: r.v)
